@@ -575,6 +575,9 @@ def build_pool(cs, ctx):
     view, guards = pool.carve(poly, cs.choice("poly.lay", ["contig",
                                                             "fortran"]), "poly")
     pool.add("polygon", view, guards, f"polygon[{len(ang)}]")
+    box = np.array([[-0.4, -0.4], [0.5, -0.4], [0.5, 0.6], [-0.4, 0.6]])
+    view, guards = pool.carve(box, "contig_exact", "poly2")
+    pool.add("polygon", view, guards, "polygon[small box]")
     inside_par = np.full(P + 16, SENT_I, dtype=np.int32)
     pool.parents.append(inside_par)
     pool.add("inside", inside_par[8:8 + P], [inside_par[:8],
